@@ -578,15 +578,49 @@ Section Sem.
     apply (run_concat_routed N). exact G2.
   Qed.
 
-  (* adjacent_gates refuses every circuit that contains a gate it does not route *)
+  (* before C07-adjacent-gates-passthrough: adjacent_gates refuses every circuit that contains a
+     gate it does not route *)
   Theorem adjacent_gates_rejects : forall c gs g,
-    In g gs -> handledb g = false -> adjacent_gates c gs = None.
+    fix_adjpass c = false -> In g gs -> handledb g = false -> adjacent_gates c gs = None.
   Proof.
-    intros c gs g Hin Hh. induction gs as [|g0 gs IH]; [destruct Hin|].
+    intros c gs g Hc Hin Hh. induction gs as [|g0 gs IH]; [destruct Hin|].
     cbn [adjacent_gates]. destruct Hin as [->|Hin].
     - unfold handledb in Hh. apply orb_false_iff in Hh. destruct Hh as [H1 H2].
-      unfold adj1. rewrite H1, H2. reflexivity.
+      unfold adj1. rewrite H1, H2, Hc. reflexivity.
     - rewrite (IH Hin). destruct (adj1 c g0); reflexivity.
+  Qed.
+
+  (* with the fix: kept unchanged *)
+  Theorem adj1_passthrough : forall c g,
+    fix_adjpass c = true -> handledb g = false -> adj1 c g = Some [g].
+  Proof.
+    intros c g Hc H. unfold handledb in H. apply orb_false_iff in H. destruct H as [H1 H2].
+    unfold adj1. rewrite H1, H2, Hc. reflexivity.
+  Qed.
+
+  Theorem adjacent_gates_mixed_ok : forall N gs,
+    Forall (gate_ok N) gs ->
+    exists outs, adjacent_gates fixed gs = Some (List.concat outs) /\
+                 Forall2 (piece_ok Linear N) gs outs /\
+                 forall st, run (List.concat outs) st = run gs st.
+  Proof.
+    intros N gs H.
+    assert (G : exists outs, adjacent_gates fixed gs = Some (List.concat outs) /\
+                             Forall2 (piece_ok Linear N) gs outs).
+    { induction H as [|g gs Hg HF IH].
+      - exists []. split; [reflexivity | constructor].
+      - destruct IH as [outs [IH1 IH2]].
+        destruct Hg as [Hg|[Hw Hr]].
+        + exists ([g] :: outs). split.
+          * cbn [adjacent_gates]. rewrite adj1_passthrough by (auto; reflexivity).
+            cbn [obind]. rewrite IH1. reflexivity.
+          * constructor; [left; auto | exact IH2].
+        + destruct (adj1_handled_ok N g Hw Hr) as [o [Ho Hok]].
+          exists (o :: outs). split.
+          * cbn [adjacent_gates]. rewrite Ho. cbn [obind]. rewrite IH1. reflexivity.
+          * constructor; [right; split; [apply wf_handled_handledb; exact Hw | exact Hok] | exact IH2]. }
+    destruct G as [outs [G1 G2]]. exists outs. split; [exact G1|]. split; [exact G2|].
+    apply (run_concat Linear N). exact G2.
   Qed.
 
   (* ---- permutation tracking is sound -------------------------------------------------------- *)
